@@ -460,6 +460,24 @@ impl Prop for C14 {
                     return;
                 }
                 cx.count("exports_dependency_ordered");
+                // one case in six: a CLONE of the library (`Library: Clone`, as a caller keeping a snapshot makes one) exports to the same message
+                if cx.n % 6 == 4 {
+                    match guard(|| g.lib.clone().to_proto()) {
+                        Ok(Ok(p2)) if p2 == p => cx.count("clone_exports_to_the_same_message"),
+                        Ok(Ok(p2)) => {
+                            cx.violation("export-of-a-clone-differs", json!({"cells": p.cells.iter().map(|c| c.name.clone()).collect::<Vec<_>>(), "cells_of_clone": p2.cells.iter().map(|c| c.name.clone()).collect::<Vec<_>>()}));
+                            return;
+                        }
+                        Ok(Err(e)) => {
+                            cx.violation("export-of-a-clone-fails", json!({"error": format!("{:?}", e).chars().take(300).collect::<String>()}));
+                            return;
+                        }
+                        Err(c) => {
+                            cx.violation(&format!("export-panic|clone|{}|{}", c.site(), c.norm_msg()), json!({"panic": c.msg}));
+                            return;
+                        }
+                    }
+                }
                 // the message itself must already carry the content (boundary observation)
                 if let Some((class, at)) = first_diff(&want, &summarize_proto(&p)) {
                     cx.violation(&format!("export|{}", class), json!({"at": at}));
